@@ -214,8 +214,10 @@ cmp_ev(const void *a, const void *b)
 	struct ovni_ev *ev1 = *pev1;
 	struct ovni_ev *ev2 = *pev2;
 
-	int64_t clock1 = (int64_t) ev1->header.clock;
-	int64_t clock2 = (int64_t) ev2->header.clock;
+	/* Unsigned, as everywhere else in this file: with a signed compare a
+	 * clock with the top bit set sorts first here but last in ring_check() */
+	uint64_t clock1 = ev1->header.clock;
+	uint64_t clock2 = ev2->header.clock;
 
 	if (clock1 < clock2)
 		return -1;
